@@ -884,43 +884,43 @@ def _(L, sv, v, s):
 def _grid_args(sv, s, L, v):
     n, _r = cfg(sv)
     d = len(n)
-    if v in ('array_opts', 'cheb_array'):
+    if v in ('array_opts', 'cheb_array', 'single_array'):
         return arr([-1.0 - k for k in range(d)], L), arr([1.0 + k for k in range(d)], L), arr(n, L)
     if v == 'list_opts':
         return [-1.0 - k for k in range(d)], [1.0 + k for k in range(d)], list(n)
     return -1.0, 2.0, max(2, max(n))
 
 
-@pat('ind_to_poi', ('scalar_opts', 'list_opts', 'array_opts', 'single', 'cheb', 'cheb_array', 'list_index'))
+@pat('ind_to_poi', ('scalar_opts', 'list_opts', 'array_opts', 'single', 'cheb', 'cheb_array', 'list_index', 'single_array'))
 def _(L, sv, v, s):
     n, _r = cfg(sv)
     a, b, nn = _grid_args(sv, s, L, v)
     I = idx(n, 4, s, full=False)
     kind = 'cheb' if v.startswith('cheb') else 'uni'
-    if v == 'single':
+    if v in ('single', 'single_array'):      # one multi-index (1-D) with scalar resp. ndarray options
         return Call(teneva.ind_to_poi, arr(I[0], L), a, b, nn, kind)
     if v == 'list_index':
         return Call(teneva.ind_to_poi, I.tolist(), a, b, nn, kind)
     return Call(teneva.ind_to_poi, arr(I, L), a, b, nn, kind)
 
 
-@pat('poi_scale', ('uni', 'cheb', 'limits', 'single', 'array_opts', 'list_opts'))
+@pat('poi_scale', ('uni', 'cheb', 'limits', 'single', 'array_opts', 'list_opts', 'single_array'))
 def _(L, sv, v, s):
     a, b, _n = _grid_args(sv, s, L, v)
     X = pts(sv, 5, s, L, -2.0, 3.0)
-    if v == 'single':
+    if v in ('single', 'single_array'):
         return Call(teneva.poi_scale, arr(np.asarray(X)[0], L), a, b)
     if v == 'limits':
         return Call(teneva.poi_scale, X, a, b, [-3.0, 5.0])
     return Call(teneva.poi_scale, X, a, b, 'cheb' if v == 'cheb' else 'uni')
 
 
-@pat('poi_to_ind', ('uni', 'cheb', 'single', 'array_opts', 'cheb_array', 'list_opts'))
+@pat('poi_to_ind', ('uni', 'cheb', 'single', 'array_opts', 'cheb_array', 'list_opts', 'single_array'))
 def _(L, sv, v, s):
     a, b, nn = _grid_args(sv, s, L, v)
     X = pts(sv, 5, s, L, -2.0, 3.0)
     kind = 'cheb' if v.startswith('cheb') else 'uni'
-    if v == 'single':
+    if v in ('single', 'single_array'):
         return Call(teneva.poi_to_ind, arr(np.asarray(X)[0], L), a, b, nn, kind)
     return Call(teneva.poi_to_ind, X, a, b, nn, kind)
 
@@ -1301,9 +1301,33 @@ def _state(call):
             and not isinstance(a, np.random.Generator)}
 
 
-def _build(fn, layout, sv, variant, seed):
+def _reform(x, form):
+    """The same argument VALUE in another documented form: 'arrays' turns a flat / rectangular list or tuple of numbers into an
+    ndarray of exactly the dtype the library converts to (int64 for integers, float64 otherwise) - so that `np.asanyarray` inside
+    the callee is a no-op and an in-place write would reach the caller's buffer; 'lists' turns a 1-D / 2-D numeric ndarray into
+    nested lists.  TT-tensors (lists of 3-D cores), arrays of other rank, dicts, callables and generators are left alone."""
+    if form == 'arrays' and isinstance(x, (list, tuple)) and len(x) > 0:
+        try:
+            a = np.array(x)
+        except Exception:
+            return x
+        if a.dtype.kind in 'iu' and a.ndim in (1, 2):
+            return a.astype(np.int64)
+        if a.dtype.kind == 'f' and a.ndim in (1, 2):
+            return a.astype(np.float64)
+        return x
+    if form == 'lists' and isinstance(x, np.ndarray) and x.ndim in (1, 2) and x.dtype.kind in 'iuf':
+        return x.tolist()
+    return x
+
+
+def _build(fn, layout, sv, variant, seed, form='asis'):
     build, variants, _ = PATTERNS[fn]
-    return build(layout, sv, variant, seed)
+    call = build(layout, sv, variant, seed)
+    if form != 'asis':
+        call.args = [_reform(a, form) for a in call.args]
+        call.kwargs = {k: _reform(a, form) for k, a in call.kwargs.items()}
+    return call
 
 
 def _run(call):
@@ -1328,11 +1352,11 @@ def _describe(before, after):
 
 
 @clause('C09.no_mutation', funcs=())
-def no_mutation(fn, layout, sv, variant, seed):
+def no_mutation(fn, layout, sv, variant, seed, form='asis'):
     """Every argument (except the info / cache dictionaries) has the same bytes, shape, dtype, list length and
     element identities after the call as before - also when the call raises."""
     try:
-        call = _build(fn, layout, sv, variant, seed)
+        call = _build(fn, layout, sv, variant, seed, form)
     except NA as e:
         return SKIP(str(e))
     before = _state(call)
@@ -1340,6 +1364,8 @@ def no_mutation(fn, layout, sv, variant, seed):
     after = _state(call)
     if before != after:
         return FAIL(_describe(before, after) + (f' (call raised {type(exc).__name__})' if exc else ''))
+    if exc is not None and form != 'asis' and not (isinstance(exc, ValueError) and 'read-only' in str(exc)):
+        return SKIP(f'the re-formed arguments ({form}) are not accepted by this pattern: {type(exc).__name__}')
     if exc is not None:
         if layout == 'R' and isinstance(exc, ValueError) and 'read-only' in str(exc):
             return FAIL(f'the call tried to write into a (read-only) argument: {str(exc)[:200]}')
@@ -1353,14 +1379,16 @@ def no_mutation(fn, layout, sv, variant, seed):
 
 
 @clause('C09.no_alias', funcs=())
-def no_alias(fn, layout, sv, variant, seed):
+def no_alias(fn, layout, sv, variant, seed, form='asis'):
     """No array reachable from the result shares memory with an array reachable from an argument; the result
     container is not an argument container (documented pass-through arguments excepted)."""
     try:
-        call = _build(fn, layout, sv, variant, seed)
+        call = _build(fn, layout, sv, variant, seed, form)
     except NA as e:
         return SKIP(str(e))
     res, extra, exc = _run(call)
+    if exc is not None and form != 'asis':
+        return SKIP(f'the re-formed arguments ({form}) are not accepted by this pattern: {type(exc).__name__}')
     if exc is not None:
         if layout == 'R' and isinstance(exc, ValueError) and 'read-only' in str(exc):
             return SKIP('write attempt into a read-only argument: reported by C09.no_mutation')
@@ -1504,6 +1532,16 @@ def cases(tier, seed):
                 s = rs()
                 for cid in ('C09.no_mutation', 'C09.no_alias'):
                     yield cid, dict(fn=fn, layout=L, sv=sv, variant=v, seed=s)
+        # every flag variant once more with the arguments re-formed: number lists as int64 / float64 ndarrays (a conversion inside
+        # the callee is then a no-op and a write reaches the caller's buffer) and numeric 1-D / 2-D ndarrays as nested lists
+        for v in variants:
+            if fn in ('grid_prep_opt', 'grid_prep_opts', 'core_stab', 'copy', 'core_dot_maxvol'):
+                break       # documented pass-through helpers: their alias contract per argument form is C09.passthrough.contract
+            for form in ('arrays', 'lists'):
+                for sv in (('base', 'd2') if big else ('base',)):
+                    s = rs()
+                    for cid in ('C09.no_mutation', 'C09.no_alias'):
+                        yield cid, dict(fn=fn, layout='C', sv=sv, variant=v, seed=s, form=form)
     for side in ('left', 'right'):
         for L in LAYOUTS[:3]:
             for sv in SHAPE_VARIANTS:
